@@ -855,7 +855,7 @@ pub const SCHEMA: &str = "
 CREATE TABLE t1 (id INTEGER PRIMARY KEY, a INT, b INT, s TEXT);
 CREATE TABLE t2 (id INTEGER PRIMARY KEY, t1_id INT, c INT, s TEXT);
 CREATE TABLE t3 (k INT, v TEXT);
-INSERT INTO t1 VALUES (1, 500, 7000, 'x'), (2, 1500, 100, 'y'), (3, 2500, 5500, 'x1'), (4, 3500, NULL, NULL), (5, NULL, 2100, 'z'), (6, 1500, 100, 'y');
+INSERT INTO t1 VALUES (1, 500, 7000, 'x'), (2, 1500, 100, 'y'), (3, 2500, 5500, 'x1'), (4, 3500, NULL, NULL), (5, NULL, 2100, 'zé你'), (6, 1500, 100, 'y');
 INSERT INTO t2 VALUES (1, 1, 1200, 'x'), (2, 1, 5200, 'q'), (3, 2, NULL, 'y'), (4, 9, 800, NULL), (5, 3, 5200, 'x1');
 INSERT INTO t3 VALUES (1, 'one'), (2, NULL), (NULL, 'three');
 ";
